@@ -1700,6 +1700,9 @@ func unmarshalList(info TypeInfo, data []byte, value interface{}) error {
 				return unmarshalErrorf("unmarshal list: array with wrong size")
 			}
 		} else {
+			if n < 0 {
+				return unmarshalErrorf("unmarshal list: negative list size %d", n)
+			}
 			rv.Set(reflect.MakeSlice(t, n, n))
 		}
 		for i := 0; i < n; i++ {
